@@ -1029,16 +1029,18 @@ class System(StoredHw, Datetime, Logbook, SystemBase):
     @property
     def heat_demands(self) -> dict[str, Any] | None:  # 3150
         # FC: 00-C8 (no F9, FA), TODO: deprecate as FC only?
-        if not self._heat_demands:
+        live = {k: v for k, v in self._heat_demands.items() if not v._expired}
+        if not live:
             return None
-        return {k: v.payload.get("heat_demand") for k, v in self._heat_demands.items()}
+        return {k: v.payload.get("heat_demand") for k, v in live.items()}
 
     @property
     def relay_demands(self) -> dict[str, Any] | None:  # 0008
         # FC: 00-C8, F9: 00-C8, FA: 00 or C8 only (01: all 3, 02: FC/FA only)
-        if not self._relay_demands:
+        live = {k: v for k, v in self._relay_demands.items() if not v._expired}
+        if not live:
             return None
-        return {k: v.payload.get("relay_demand") for k, v in self._relay_demands.items()}
+        return {k: v.payload.get("relay_demand") for k, v in live.items()}
 
     @property
     def relay_failsafes(self) -> dict[str, Any] | None:  # 0009
